@@ -142,9 +142,25 @@ public:
                 const XalanDOMChar  chars[],
                 size_type           start,
                 size_type           length,
-                bool&               /* outsideCDATA */)
+                bool&               outsideCDATA)
     {
         assert(chars != 0 && length != 0 && start < length);
+
+        if (outsideCDATA == true)
+        {
+            // The caller left the CDATA section to write a character
+            // reference.  Open a new section for this character.
+            static const value_type     s_cdataOpenString[] =
+            {
+                '<', '!', '[', 'C', 'D', 'A', 'T', 'A', '['
+            };
+
+            write(
+                s_cdataOpenString,
+                sizeof(s_cdataOpenString) / sizeof(s_cdataOpenString[0]));
+
+            outsideCDATA = false;
+        }
 
         return write(chars, start, length);
     }
